@@ -69,7 +69,7 @@ def make_hist(rng, d, who=0):
     if v == (0, 0, 0):
         v = (gen.F(1), gen.F(0), gen.F(0))
     return {"who": who, "v": v, "use": rng.choice(("receiver", "receiver", "returned")), "touch": rng.random() < 0.75,
-            "sib": rng.choice((None, None, "neg", "copy")), "neg": rng.random() < 0.25,
+            "sib": rng.choice((None, None, "neg", "copy")), "neg": rng.choice((None, None, None, "before", "after")),
             "w": tuple(gen.F(rng.randint(-4, 4), 2) for _ in range(3))}
 
 
@@ -141,10 +141,13 @@ def lift_via_history(d, h, r, partner=None):
         return lift(d, r)
     o = lift(d0, r)
     k = d[0]
-    if h.get("neg") and k in ("PG", "PL"):
-        # the same set obtained by negating twice / once: a derived object with its own internal wiring
+    negmode = h.get("neg")
+    if negmode is True:
+        negmode = "before"
+    if negmode == "before" and k in ("PG", "PL"):
+        # the same set obtained by negating once / twice: a derived object with its own internal wiring
         HIST_STATS["via_negation"] += 1
-        o = -o if k == "PL" else -(-o)
+        o = -o if (k == "PL" or h.get("w", (0,))[0] % 2 == 0) else -(-o)
     HIST_STATS["built"] += 1
     if h.get("touch"):
         touch(o, d0, partner)
@@ -155,6 +158,27 @@ def lift_via_history(d, h, r, partner=None):
     elif h.get("sib") == "copy":
         sib = _copy.deepcopy(o)
     ret = o.move(G.Vector(*[float(c) for c in v]))
+    derived = None
+    if k == "P" and h.get("sib"):
+        # objects built FROM the point (in its final place) go their own way afterwards: the point must not follow them
+        derived = []
+        for src in (o, ret):
+            derived += [G.Line(src, G.Vector(1.0, 2.0, 2.0)), G.Segment(src, G.Vector(0.5, -1.0, 1.0)), G.HalfLine(src, G.Vector(2.0, 0.0, -1.0))]
+    if derived:
+        for dobj in derived:
+            try:
+                dobj.move(G.Vector(*[float(c) for c in h.get("w", (1, 0, 0))]))
+            except Exception:
+                pass
+        HIST_STATS["siblings"] += 1
+    if negmode == "after" and k in ("PG", "PL"):
+        # the operand is the negation of an object that was moved and used in its final place
+        HIST_STATS["via_negation"] += 1
+        if h.get("touch"):
+            touch(o, d, partner)
+            touch(ret, d, partner)
+        o = -o
+        ret = -ret
     if sib is not None and hasattr(sib, "move"):
         # a sibling derived before the move goes its own way afterwards: the operand must not follow it
         HIST_STATS["siblings"] += 1
